@@ -5,6 +5,8 @@ cd "$(dirname "$0")"
 export GOFLAGS=-mod=mod GOPROXY=off GOSUMDB=off GOTOOLCHAIN=local CGO_ENABLED=${CGO_ENABLED:-0}
 mkdir -p .bin evidence replays
 (cd tools/extract && go build -o ../../.bin/extract . && ../../.bin/extract -repo /repo -out ../../lean/Girc/Gen/Facts.lean)
-(cd lean && lake build Girc driver)
+# all property modules are prebuilt here (in parallel); each check then only re-verifies what changed
+PROPS=$(python3 -c "import json;print(' '.join(sorted({'Girc.Props.'+m for p in json.load(open('obligations.json')).values() for m in p.get('modules',[])})))")
+(cd lean && lake build Girc driver $PROPS)
 (cd harness && go build -tags verif -o ../.bin/corr .)
 echo setup-ok
